@@ -27,6 +27,8 @@ pub fn run_property(p: &str) {
         "C06" => c06(),
         "C13" => c13(),
         "C10" => c10(),
+        "C17" => c17(),
+        "C20" => c20(),
         other => {
             eprintln!("no loom models for {other}");
             std::process::exit(2)
@@ -271,4 +273,51 @@ fn c10() {
         add(json!({"producers": [[["a", 1], ["a", 2]]], "main": [["a", 4]], "flush": k % 2 == 0, "jump_k": k, "pb": pb}));
     }
     finish(rep, jobs, "The real WorkerSink thread over a real KeyedAggregator with 1-2 producer threads x 1-2 sends (colliding and distinct keys), an awaited flush on the main thread, the timed flush expiring at every early clock read, and the drop of the last handle, all schedules within the preemption bound: a completed flush has emitted everything sent before it by that thread; across all emitted aggregates every input is counted exactly once per key (count and weight sums); after the last handle is dropped the worker emits what it holds, drops the aggregator and exits within 3 fake flush intervals (a spinning worker is reported as a livelock).");
+}
+
+fn c17() {
+    let rep = Report::from_args("C17", "model_checking");
+    let tier = rep.tier;
+    let pb = tier.pick(3, 4);
+    let mut jobs = Vec::new();
+    for appenders in 1..=tier.pick(2u64, 3) {
+        for per in 1..=2u64 {
+            for reattach in [false, true] {
+                if appenders == 3 && per == 2 {
+                    continue;
+                }
+                jobs.push(Job { harness: "c17", cfg: json!({"appenders": appenders, "per": per, "reattach": reattach, "pb": pb}) });
+            }
+        }
+    }
+    for (appenders, per) in [(1u64, 1u64), (1, 2), (2, 1)] {
+        jobs.push(Job { harness: "c17", cfg: json!({"appenders": appenders, "per": per, "background": true, "pb": 2}) });
+    }
+    finish(rep, jobs, "try_append from 1-3 threads racing the drop of the attach handle (and a re-attach of a second sink), with a recording sink whose handle marks it closed on drop and with a real background queue as the attached sink, all schedules within the preemption bound: every entry is either handed back unchanged or accepted by exactly one sink before that sink was closed; with a background queue every accepted entry reaches the stream and the detach drains, flushes and closes it; afterwards the global is detached.");
+}
+
+fn c20() {
+    let rep = Report::from_args("C20", "model_checking");
+    let tier = rep.tier;
+    let pb = tier.pick(3, 4);
+    let mut jobs = Vec::new();
+    let mut add = |cfg: Value| jobs.push(Job { harness: "c20", cfg });
+    for readouts in 1..=2u64 {
+        // shared key, distinct keys, mixed kinds
+        add(json!({"updaters": [[["c", "x", 1]], [["c", "x", 4]]], "readouts": readouts, "pb": pb}));
+        add(json!({"updaters": [[["c", "x", 1], ["c", "x", 2]], [["c", "x", 4]]], "readouts": readouts, "pb": pb}));
+        add(json!({"updaters": [[["c", "x", 1], ["c", "w", 2]], [["c", "w", 4], ["c", "x", 8]]], "readouts": readouts, "pb": pb}));
+        add(json!({"updaters": [[["h", "y", 5], ["h", "y", 9]], [["h", "y", 1000]]], "readouts": readouts, "pb": pb}));
+        add(json!({"updaters": [[["g", "z", 3], ["g", "z", 7]]], "readouts": readouts, "pb": pb}));
+        add(json!({"updaters": [[["g", "z", 3]], [["g", "z", 7]]], "readouts": readouts, "pb": pb}));
+        add(json!({"updaters": [[["c", "x", 1], ["h", "y", 5]], [["g", "z", 3], ["h", "y", 9]]], "readouts": readouts, "pb": pb}));
+        // (registering a key for the first time concurrently with a readout is not modelled: the
+        // registry's own shard locks are invisible to loom, which would then see an atomic created
+        // on one thread and read on another without a happens-before edge)
+    }
+    if tier == Tier::Thorough {
+        add(json!({"updaters": [[["c", "x", 1]], [["c", "x", 2]], [["c", "x", 4]]], "readouts": 2, "pb": 3}));
+        add(json!({"updaters": [[["c", "x", 1], ["h", "y", 5], ["g", "z", 1]], [["c", "x", 2], ["h", "y", 6], ["g", "z", 2]]], "readouts": 3, "pb": 3}));
+    }
+    finish(rep, jobs, "1-3 updater threads x 1-3 operations (counter increments on shared and distinct keys, histogram records, gauge sets; handles registered up front or on first use) against 1-3 readouts on the main thread plus a final readout, all schedules within the preemption bound, counters and gauges on loom atomics: per key the reported counter deltas sum to the total incremented, histogram occurrences sum to the number of records, the gauge reports the last value set.");
 }
